@@ -102,7 +102,7 @@ theorem step2_PS (b : Nat) (w : World) (ctx : StepCtx) (step : Outbound.Step) (n
   have g := good_of_K_not_wait k rfl
   cases hp : prepareStep w step with
   | fail e =>
-    exact Out2.finishErr (.PS w ctx step now) (Lines.refl w) k.1 (ctxName ctx) e
+    exact Out2.finishErr (.PS w ctx step now) ((Lines.refl w).discFail ctx) (by rw [discFail_wakes]; exact k.1) (ctxName ctx) e
       (fun m => by simp only [Call.run, performStep, hp])
   | done =>
     refine .call (.SR w ctx false) (k.same rfl ?_) (Lines.refl _) (fun m => by simp only [Call.run, performStep, hp])
@@ -116,14 +116,14 @@ theorem step2_PS (b : Nat) (w : World) (ctx : StepCtx) (step : Outbound.Step) (n
   | flush pkt =>
     cases hl : w.live with
     | false =>
-      exact Out2.finishErr (.PS w ctx step now) (Lines.refl w) k.1 (ctxName ctx) .disconnected
+      exact Out2.finishErr (.PS w ctx step now) ((Lines.refl w).discFail ctx) (by rw [discFail_wakes]; exact k.1) (ctxName ctx) .disconnected
         (fun m => by simp [Call.run, performStep, hp, hl])
     | true =>
       exact .call (.DSF w ctx pkt now) (k.same rfl trivial) (Lines.refl _) (fun m => by simp [Call.run, performStep, hp, hl])
   | write pkt bytes written len =>
     cases hl : w.live with
     | false =>
-      exact Out2.finishErr (.PS w ctx step now) (Lines.refl w) k.1 (ctxName ctx) .disconnected
+      exact Out2.finishErr (.PS w ctx step now) ((Lines.refl w).discFail ctx) (by rw [discFail_wakes]; exact k.1) (ctxName ctx) .disconnected
         (fun m => by simp [Call.run, performStep, hp, hl])
     | true =>
       exact .call (.DSW w ctx pkt bytes written len now) (k.same rfl trivial) (Lines.refl _)
@@ -134,7 +134,7 @@ theorem pure_lines {w w1 : World} (hp : Pure w w1) : Lines w w1 := (Lines.refl w
 theorem step2_FL (b : Nat) (w : World) (kk : AfterFlush) (k : K b (.FL w kk)) : Out2 b (.FL w kk) := by
   cases hq : w.maybeQueuePingreq w.now with
   | error e =>
-    exact Out2.finishErr (.FL w kk) (Lines.refl w) k.1 (afterFlushName kk) e
+    exact Out2.finishErr (.FL w kk) ((Lines.refl w).discFail (.flush kk)) (by rw [discFail_wakes]; exact k.1) (afterFlushName kk) e
       (fun m => by simp only [Call.run, flushLoop, hq])
   | ok w1 =>
     have hp := maybeQueuePingreq_pure hq
@@ -180,7 +180,7 @@ theorem step2_DSW (b : Nat) (w : World) (ctx : StepCtx) (pkt : Flushed) (bytes :
       exact Out2.suspend (.DSW w ctx pkt bytes written len now) hl hw (.stepWrite ctx pkt bytes written len now) trivial
         (fun m => by simp only [Call.run, doStepWrite, hio])
     | zero =>
-      exact Out2.finishErr (.DSW w ctx pkt bytes written len now) hl hw (ctxName ctx) .writeZero
+      exact Out2.finishErr (.DSW w ctx pkt bytes written len now) (hl.discFail ctx) (by rw [discFail_wakes]; exact hw) (ctxName ctx) .writeZero
         (fun m => by simp only [Call.run, doStepWrite, hio])
     | err kd =>
       exact Out2.finishErr (.DSW w ctx pkt bytes written len now) hl.handleDisconnect hw (ctxName ctx) (.transport kd)
